@@ -34,7 +34,7 @@ PLAN = {
         ],
         "assumptions": [
             "the pipeline model (appendix B of DESIGN.md) abstracts what happens inside one compression call; every model trace replayed is confirmed step by step through Progress callbacks, and a divergence is a MACHINERY-ERROR, never a verdict",
-            "worker count is set through the CPU affinity mask (taskset): W in {1,2,3} exhaustively (quick: at most 40 arrival orders per program), W in {7,15} with 6 orders per program in thorough",
+            "worker count is set through the CPU affinity mask (taskset): W in {1,2,3} (quick: at most 40 arrival orders per program, thorough: at most 3000), W in {7,15} with 6 orders per program in thorough; at most 2 000 000 model states per program; every cap that is hit is reported and makes the run non-exhaustive for that program",
             "a 20 s watchdog only turns a real deadlock into a verdict (all gates are then opened to tell a deadlock from a model mis-prediction)",
             "engine L: the real clusterwriter.rs under loom (loom Mutex/Condvar, channel shims with hang-up semantics, loom threads, 1 blob per cluster, in-memory recipient; at most 2 workers because of loom's 5-thread limit), preemption bound 2",
         ],
@@ -53,7 +53,7 @@ PLAN = {
         "engines": lambda tier: [_e("release", "crashmc", "c09", also_build=[("shim", "faultfs")])],
         "assumptions": [
             "crash = process termination (kill at a write call after a partial write); power loss / page-cache loss is excluded by the property",
-            "faults are injected by an LD_PRELOAD shim on write/pwrite/writev (copy_file_range/sendfile/splice are refused so that std falls back to write); renames are raw syscalls, atomic, and not faulted themselves",
+            "faults are injected by an LD_PRELOAD shim on write/pwrite/writev (copy_file_range/sendfile/splice are refused so that std falls back to write); renames are raw syscalls the shim cannot see: they are faulted through strace syscall tampering (k-th rename of a thread: EIO, ENOENT, SIGKILL on entry)",
             "the write history is deterministic (two recording runs are compared call by call) and complete (per-inode byte accounting against final file sizes + one strace listing)",
         ],
     },
@@ -120,7 +120,7 @@ PLAN = {
         "assumptions": [
             "content lengths come from a boundary alphabet (0,1,255,256,65535,65536, 4 MiB-1/4 MiB/4 MiB+1, 16 MiB+1); payload bytes are seeded patterns (low/high entropy)",
             "the creator runs with 3 compression workers (process pinned to 4 CPUs); worker scheduling itself is C08's subject",
-            "Detect hints within 0.05 bit of the 6.0 entropy threshold are excluded from the model conformance check (still read back)",
+            "the slot a CompHint::Detect content goes to is read from the produced bytes (the property leaves it open); explicit hints are dictated by the property",
         ],
     },
     "C16": {
